@@ -45,7 +45,7 @@ func (l *genericFileSessionLoader) Load() (*Session, error) {
 	}
 
 	if info.ModTime().Equal(l.lastEdited) && l.cached != nil {
-		return l.cached, nil
+		return l.cached.clone(), nil
 	}
 
 	data, err := ioutil.ReadFile(l.path)
@@ -64,7 +64,8 @@ func (l *genericFileSessionLoader) Load() (*Session, error) {
 		return nil, err
 	}
 
-	l.cached = s
+	// the cache keeps its own copy: the caller is free to modify what it gets
+	l.cached = s.clone()
 	l.lastEdited = info.ModTime()
 
 	return s, nil
